@@ -15,9 +15,12 @@ TPrintClass == LET r == Events[l]  isZero == r.notation = "zero" \/ r.e10 = -999
           [cls |-> "number_format", key |-> r.num, e10 |-> r.e10, text |-> r.text, x |-> r.x])
   /\ decades' = IF isZero THEN decades ELSE decades \cup {<<r.num, r.e10, r.neg>>}
   /\ UNCHANGED composed
+(* the forms that take a unit have the grammar of the corresponding form without argument (numbers of Value(unit), abbreviation of that unit) *)
+UnitForm == [Print_unit |-> "Print", JSON_unit |-> "JSON", XML_unit |-> "XML", YAML_unit |-> "YAML"]
 TCompose == LET r == Events[l] IN
-  /\ IsEvent("Composite") /\ r.type \in DOMAIN Shapes /\ r.form \in {"Print", "JSON", "XML", "YAML", "stream"}
-  /\ Flag(r.numbers_ok /\ r.template = Template(Shapes[r.type], r.dimensional, r.form),
+  /\ IsEvent("Composite") /\ r.type \in DOMAIN Shapes /\ r.form \in {"Print", "JSON", "XML", "YAML", "stream", "Print_unit", "JSON_unit", "XML_unit", "YAML_unit"}
+  /\ (r.form \in DOMAIN UnitForm) => (r.dimensional /\ r.unit \in {"std", "alt"})
+  /\ Flag(r.numbers_ok /\ r.template = Template(Shapes[r.type], r.dimensional, IF r.form \in DOMAIN UnitForm THEN UnitForm[r.form] ELSE r.form),
           [cls |-> "composite_form", key |-> r.type \o ":" \o r.form \o ":" \o r.num, e10 |-> 0, text |-> r.template, x |-> ""])
   /\ composed' = composed \cup {<<r.type, r.num, r.form>>}
   /\ UNCHANGED decades
